@@ -4,7 +4,7 @@ that directly modifies field A of its record also directly modifies field B (exe
 reason).  A second row type covers raw inserters: a function that calls `o.<callee>()` on another object must set o.<field>."""
 import json
 import os
-from astu import C, ctxt, gt_pair, eq_const, strip, strip_all, walk, txt, short, is_this_field, functions_by
+from astu import C, ctxt, gt_pair, eq_const, reach, reach_txt, ctext, strip, strip_all, walk, txt, short, is_this_field, functions_by
 from vlib.core import ob, VERIF
 
 
